@@ -49,6 +49,19 @@ class User(callbacks.Plugin):
         if password and msg.channel:
             raise callbacks.Error(conf.supybot.replies.requiresPrivacy())
 
+    def _checkName(self, irc, name):
+        if ircutils.isUserHostmask(name):
+            irc.errorInvalid(_('username'), name,
+                             _('Hostmasks are not valid usernames.'),
+                             Raise=True)
+        if name != name.strip() or \
+           '\t' in name or '\r' in name or '\n' in name:
+            # The name is written on a line of its own in users.conf.
+            irc.errorInvalid(_('username'), name,
+                             _('Usernames must not start or end with '
+                             'whitespace, nor contain tabs or newlines.'),
+                             Raise=True)
+
     @internationalizeDocstring
     def list(self, irc, msg, args, optlist, glob):
         """[--capability=<capability>] [<glob>]
@@ -118,10 +131,7 @@ class User(callbacks.Plugin):
                       Raise=True)
         except KeyError:
             pass
-        if ircutils.isUserHostmask(name):
-            irc.errorInvalid(_('username'), name,
-                             _('Hostmasks are not valid usernames.'),
-                             Raise=True)
+        self._checkName(irc, name)
         try:
             u = ircdb.users.getUser(msg.prefix)
             if u._checkCapability('owner'):
@@ -184,6 +194,7 @@ class User(callbacks.Plugin):
             return
         except KeyError:
             pass
+        self._checkName(irc, newname)
         if user.checkHostmask(msg.prefix) or user.checkPassword(password):
             user.name = newname
             ircdb.users.setUser(user)
